@@ -61,6 +61,27 @@ def run(ctx):
             chk.ob("wait/none/%#05x" % a, "pending_wait_for_memory" not in bk["writes"],
                    "a word without bus access does not touch the wait flag", where, "writes: %s" % bk["writes"])
     chk.floor("bus-access control words", nbus, 50)
+    # ... and it is the address on the bus that decides, not the content of another register or the data byte: the data-path
+    # stages on concrete register contents (six assignments in which any two registers differ in class at least once), per
+    # (word, register-selection class), with the address handed to Bus::read / Bus::write recorded
+    from .. import datapath
+    dp_ = datapath.build(p, mt, cache_dir=p.facts_dir)
+    bad_w = []
+    ncases = 0
+    for (a_, ir_), r_ in sorted(dp_["back"].items()):
+        for bit_, flip_, rd_, wr_, w_ in r_.get("waitcases", []):
+            addrs = [x for x in rd_ + wr_]
+            ncases += 1
+            if len(set(addrs)) != 1 or not isinstance(addrs[0], int):
+                bad_w.append("word %#05x ir %#04x: bus addresses %s" % (a_, ir_, addrs))
+                continue
+            want_ = [1] if addrs[0] <= 0xEF else [0]
+            if w_ != want_:
+                bad_w.append("word %#05x ir %#04x: address %#04x on the bus, wait flag %s" % (a_, ir_, addrs[0], w_))
+    chk.ob("wait/by-address", not bad_w and ncases >= 600,
+           "a bus access waits exactly when the address on the bus is 0x00-0xEF, whatever the other registers hold",
+           "raw/mod.rs read_from_memory / write_to_memory", "; ".join(bad_w[:3]) or "%d (word, class, assignment) cases" % ncases,
+           "A4 of the data-path stages on concrete register contents with recording stand-ins for Bus::read / Bus::write")
     # a waiting edge consumes the flag and changes nothing else
     ov = step.machine_overrides(p, None, "Running", True)
     st, ma, r = step.run_method(p, I, step.EDGE, ov)
